@@ -151,5 +151,20 @@ CHECKS['C07'] = dict(
     note='trusted: casefold as an uninterpreted idempotent function agreeing with str.casefold on the literals used, '
          'defaultdict(CopySet) abstracted as a total map, membership in vmf.entities as a set, pyvc; vacuity covers '
          'under quantified hypotheses are inconclusive (recorded); CopySet iteration and VMF.parse bounded-only.')
+CHECKS['C09'] = dict(
+    category='proof',
+    technique='contract-based deductive verification: coverage and freshness contracts of every copy() decided on the '
+              'AST against the class\'s own field list; pyvc symbolic execution of Keyvalues.copy (allocation-based '
+              'freshness); frame obligation for Keyvalues.__add__; bounded mutation stand-in',
+    text='For Side (incl. every DispVertex field), Solid, Entity, Output, VisGroup, EntityGroup, Camera, Cordon, UVAxis '
+         'and Keyvalues the copy method is checked against its contract: every field of the class is carried over, '
+         'no mutable field is handed over bare, and containers of mutable elements are rebuilt from copied elements. '
+         'Keyvalues.copy is executed symbolically on every tree shape up to depth 2: all nodes and child lists of the '
+         'result are allocated in the call and equal the source field by field; Keyvalues.__add__ is shown to assign or '
+         'append to nothing reachable from its operands. Independence under later mutation follows from freshness and '
+         'is additionally exercised on generated objects (every reachable vector, list, set, key, output, fixup, vertex).',
+    note='trusted: freshness of .copy()/constructor/comprehension results and of attrs converters; the field lists come '
+         'from __slots__/annotations/__init__; deeper aliasing through helper methods other than copy_values is covered '
+         'only by the bounded tier.')
 _PENDING = 'not yet built in this session (planned, see DESIGN.md section 3); no check is registered so nothing is claimed'
 NOT_APPLICABLE = {f'C{i:02d}': _PENDING for i in range(1, 21) if f'C{i:02d}' not in CHECKS}
